@@ -162,7 +162,11 @@ def op_isempty(fr, i, obj, args):
 
 def op_imul(fr, i, obj, args):
     a, b = ([obj] + list(args)) if obj is not None else args
-    a.f["poly"] = pmul(a.f["poly"], b.f["poly"])
+    if isinstance(b, Obj):
+        a.f["poly"] = pmul(a.f["poly"], b.f["poly"])
+    else:
+        # Operator::operator*=(MelemType): scales every coefficient (a negligible factor clears the polynomial)
+        a.f["poly"] = {k: sp.expand(b * v) for k, v in a.f["poly"].items() if sp.expand(b * v) != 0}
     return a
 
 
